@@ -114,7 +114,6 @@ impl FileSystem for OverlayFS {
     }
 
     fn create_dir(&self, path: &str) -> VfsResult<()> {
-        self.ensure_has_parent(path)?;
         if self.exists(path)? {
             // occupied, possibly only in a lower layer which the upper layer cannot see
             return Err(match self.metadata(path)?.file_type {
@@ -123,6 +122,7 @@ impl FileSystem for OverlayFS {
             }
             .into());
         }
+        self.ensure_has_parent(path)?;
         self.write_path(path)?.create_dir()?;
         let whiteout_path = self.whiteout_path(path)?;
         if whiteout_path.exists()? {
